@@ -64,15 +64,43 @@ def mask_env(app):
     return out
 
 
+def app_class(app):
+    """coarse protocol class of an application reply (what the properties' projections compare)"""
+    if app is None:
+        return None
+    return reflect_class(app) if app else 'empty'
+
+
 def proj_headers(r):
+    """projection of a reply frame on the fields the layer-2..4 properties speak about: addresses, protocol,
+    ports, sequence/acknowledgement numbers, flags, ARP / ICMP bodies without checksum — NOT ttl, ip id, window,
+    lengths, checksums or the application bytes (those are judged on the implementation's own output; a harmless
+    rewrite of e.g. the HTML page or the TTL must not look like a violation)"""
     d = split_reply(r)
-    return (d.get('l2'), d.get('ip'), d.get('tcp'), d.get('udp'), d.get('arp'), d.get('l4'), len(d.get('app') or b''))
+    ip = d.get('ip')
+    tcp = d.get('tcp')
+    udp = d.get('udp')
+    l4 = d.get('l4')
+    return (d.get('l2'), (ip[0], ip[1], ip[2]) if ip else None, tcp[:5] if tcp else None, udp[:2] if udp else None,
+            d.get('arp'), (l4[:2] + l4[4:]) if l4 else None, app_class(d.get('app')))
 
 
 def proj_app(r):
     d = split_reply(r)
-    return (d.get('proto'), mask_env(d.get('app')))
+    return (d.get('proto'), app_class(d.get('app')))
 
+
+def proj_a(rs):
+    """projection of an A-op result "<hex|-> <port>": answered?, responder class, local-port value"""
+    parts = rs.split()
+    if not parts or parts[0] in ('-',):
+        return ('silent', parts[1] if len(parts) > 1 else None)
+    if parts[0] == 'PANIC':
+        return ('panic',)
+    try:
+        return ('reply', reflect_class(bytes.fromhex(parts[0])), parts[1] if len(parts) > 1 else None)
+    except ValueError:
+        return ('raw', rs)
 
 def outcome(rs):
     if rs is None:
@@ -556,9 +584,9 @@ PROPS = {
                      'non-trivial = frame that C02 requires to be silent, or a reply under a configured self-IP list'),
     'C03': dict(gen=lambda rng, tier: gen_mixed(rng, tier), judge='C03', proj=proj_headers,
                 rule='frames from the structured frame builder; non-trivial = frame that elicited a reply (mirror relation evaluated)'),
-    'C04': dict(gen=gen_c04, judge='C04', release=True, proj=lambda r: r,
+    'C04': dict(gen=gen_c04, judge='C04', release=True, proj=proj_headers,
                 rule='frames from the structured frame builder, payload sizes 0..4 KiB incl. odd; non-trivial = a reply was emitted and re-parsed / re-checksummed'),
-    'C05': dict(gen=gen_c05, judge='C05', proj=lambda r: r,
+    'C05': dict(gen=gen_c05, judge='C05', proj=proj_headers,
                 rule='ARP operations x field variants x handled/unhandled targets; ICMPv4/ICMPv6 type x code grids with payload lengths 0..1472; '
                      'Neighbour Solicitations (handled/unhandled target, options, truncated); non-trivial = frame for which C05 prescribes an answer or silence'),
     'C06': dict(gen=gen_c06, judge='C06', proj=proj_headers, release=True,
@@ -832,7 +860,9 @@ def explore(prop, pd, tier, seed, replay=None):
                         except ValueError:
                             return x['r'].encode()
                     ra, rb = _hexof(a), _hexof(b)
-                    if o[0] != 'F':
+                    if o[0] == 'A':
+                        ra, rb = proj_a(a['r']), proj_a(b['r'])
+                    elif o[0] != 'F':
                         ra, rb = (a['r'],), (b['r'],)
                     pj = pd['proj'] if o[0] == 'F' else (lambda x: x)
                     pa = (outcome(a['r']), pj(ra) if ra is not None else None, a['t'] if pd.get('table') else None)
@@ -1079,7 +1109,7 @@ def explore_c11(prop, pd, tier, rng, corpus_cases):
                 violations.append(v)
             elif len(samples) < 3 and trigger is not None:
                 samples.append({'stream': s.hex(), 'cuts': list(c['cuts']), 'trigger_byte': trigger, 'per_segment': [k for k, _ in obs]})
-    compared, exact = _corr(cases, lambda o, b: seg_kind(b), disagreements)
+    compared, exact = _corr(cases, lambda o, b: (seg_kind(b)[0], app_class(seg_kind(b)[1])), disagreements)
     dist = {'streams': len(groups), 'compositions': evaluations, 'kinds': {k: sum(1 for g in groups if g['kind'] == k) for k in ('http', 'rpc')}}
     return _result(evaluations, nontrivial, samples, compared, exact, disagreements, violations, pd['rule'], dist)
 
@@ -1188,7 +1218,7 @@ def explore_c19(prop, pd, tier, rng, corpus_cases):
                                'tags': [kind, str(fault)], 'outs': [str(outs[0])[:200], str(outs[bad])[:200]]})
         elif len(samples) < 3 and outs[0][0] != 'silent':
             samples.append({'payload': pl.hex()[:200], 'transport': 'tcp' if tcp else 'udp', 'variants': len(variants), 'canonical_reply': str(outs[0])[:200]})
-    compared, exact = _corr([c], lambda o, b: b['r'], disagreements)
+    compared, exact = _corr([c], lambda o, b: proj_a(b['r']) if o[0] == 'A' else proj_headers(bytes.fromhex(b['r'])) if outcome(b['r']) == 'reply' else outcome(b['r']), disagreements)
     return _result(len(groups) * 6, nontrivial, samples, compared, exact, disagreements, violations, pd['rule'], {'kinds': dist})
 
 
@@ -1248,7 +1278,7 @@ def explore_c08(prop, pd, tier, rng, corpus_cases):
             violations.append(v)
         elif len(samples) < 3 and outs[0][0] == 'reply':
             samples.append({'probe': f.hex()[:200], 'history_lengths': [len(cases[i]['ops']) - 3 for i in ids], 'reply': str(outs[0])[:160]})
-    compared, exact = _corr(cases, lambda o, b: proj_probe(b['r']), disagreements)
+    compared, exact = _corr(cases, lambda o, b: proj_headers(bytes.fromhex(b['r'])) if outcome(b['r']) == 'reply' else outcome(b['r']), disagreements)
     return _result(len(groups) * 5, nontrivial, samples, compared, exact, disagreements, violations, pd['rule'],
                    {'probes': len(groups), 'histories': len(cases)})
 
@@ -1412,7 +1442,7 @@ def explore_c12(prop, pd, tier, rng, corpus_cases):
             continue
         if outcome(b['r']) == 'reply':
             violations.append({'clause': '%s elicited a reply' % name, 'ops': [op_to_json(l2case['ops'][0]), ['X'], op_to_json(('F', f))], 'tags': [name]})
-    compared, exact = _corr(chain_cases + [l2case], lambda o, b: b['r'], disagreements)
+    compared, exact = _corr(chain_cases + [l2case], lambda o, b: proj_a(b['r']) if o[0] == 'A' else outcome(b['r']), disagreements)
     dist = {'l2l4_frames': len(frames), 'generated_app_replies': len(fixed), 'own_replies_reflected': len(own)}
     return _result(len(frames) + len(msgs), len(frames) + len(msgs), samples, compared, exact, disagreements, violations, pd['rule'], dist)
 
